@@ -361,7 +361,7 @@ def svd(A):
            + Az[0][2] * (Az[1][0] * Az[2][1] - Az[1][1] * Az[2][0]))
     inv = z3.And(d[0] * d[0] + d[1] * d[1] + d[2] * d[2] == fro,
                  d[0] * d[0] * d[1] * d[1] + d[0] * d[0] * d[2] * d[2] + d[1] * d[1] * d[2] * d[2] == sum(minors),
-                 z3.Or(d[0] * d[1] * d[2] == det, d[0] * d[1] * d[2] == -det))
+                 det == su * sv * d[0] * d[1] * d[2])
     for x in d:
         c.axiom(x, order, "cons")
         c.axiom(x, inv, "svdinv")
@@ -425,10 +425,19 @@ def quaternion_of_rotation(M):
     r = symrot.lookup(M)
     if r is not None and r.sigma == 1:
         # q = +-p : fresh sign variable sg in {1,-1}
+        from . import polyred
+        # eigenvector sign: +-p.  Deliberate cut (DESIGN 2.5): the stub returns the representative with a
+        # non-negative scalar part, so evo's own "if q[0] < 0: negate" is not forked over for every pose
+        # (quaternion sign is not observable in any property: "up to sign").
         sg = c.fresh("qsign")
-        c.axiom(sg, z3.Or(sg == 1, sg == -1))
+        polyred.unit_hyps_of(c).add_sign(sg)
+        nonneg = sg * r.q[0] >= 0
+        try:
+            nonneg = polyred.rewrite(c, nonneg)      # same normal form as evo's own comparison q[0] < 0
+        except polyred.NotPolynomial:
+            pass
+        c.axiom(sg, z3.And(z3.Or(sg == 1, sg == -1), nonneg))
         q = [mk(z3.simplify(sg * p)) for p in r.q]
-        qz = [toz(x) for x in q]
     else:
         if os.environ.get("EVOVERIF_DEBUG"):
             print("quaternion_of_rotation fallback: lookup=%r sigma=%r entry00=%s nfkey=%s" % (
@@ -436,7 +445,7 @@ def quaternion_of_rotation(M):
         qs = [c.fresh("qm") for _ in range(4)]
         R = symrot.quat_R(qs)
         eqs = [R[i][j] == toz(M[i, j]) for i in range(3) for j in range(3)]
-        ax = z3.And([symrot.norm2(qs) == 1] + eqs)
+        ax = z3.And([symrot.norm2(qs) == 1, qs[0] >= 0] + eqs)
         from . import polyred
         for x in qs:
             c.axiom(x, ax)
